@@ -49,6 +49,7 @@ THEOREMS = [
     "FaxVerif.C17.tempdir_released",
     "FaxVerif.C17.machine",
     "FaxVerif.C17.spec_partial",
+    "FaxVerif.C17.spec_generated",
     "FaxVerif.C17.generated_recognised",
     "FaxVerif.C17.generated_backends_wellformed",
 ]
@@ -191,25 +192,32 @@ def translate_executor(repo: Path, module: str, cls_name: str) -> Dict[str, Any]
     return {"fileNames": file_names, "runner": runner, "templateDir": template_dir}
 
 
-def translate_runner(repo: Path, template_dir: str, runner: str) -> Dict[str, str]:
+def translate_runner(repo: Path, template_dir: str, runner: str) -> Dict[str, Any]:
+    """Three facts of the rendered script (the templates carry no jinja directive on these lines): the default
+    output directory, the name of the file it leaves there, the file list it looks for next to itself — plus the
+    cache directories it expects to be mounted."""
     text = (repo / template_dir / runner).read_text()
     m_out = re.findall(r'^\s*output_dir="([^"]*)"\s*$', text, re.M)
-    m_dest = set(re.findall(r"^\s*destination=\$output_dir/(\S+)\s*$", text, re.M))
+    names = set(re.findall(r"^\s*destination=\$output_dir/(\S+)\s*$", text, re.M))
+    if not names and re.search(r"^\s*destination=\$output_dir\s*$", text, re.M):
+        # `cp <dir>/<file> $destination` into the directory: the file keeps its name
+        names = {x.rsplit("/", 1)[-1] for x in re.findall(r"^\s*\$cmd\s+(\S+)\s+\$destination\s*$", text, re.M)}
     m_fl = set(re.findall(r"-e \$DIR/(\S+) \]", text))
     if len(m_out) != 1:
         raise Unrec(f"{template_dir}/{runner}: default output_dir not found exactly once")
-    if len(m_dest) != 1:
-        raise Unrec(f"{template_dir}/{runner}: `destination=$output_dir/<file>` not found with a single file name")
+    if len(names) != 1:
+        raise Unrec(f"{template_dir}/{runner}: the name of the file copied to $output_dir was not found (candidates {sorted(names)})")
     if len(m_fl) != 1:
         raise Unrec(f"{template_dir}/{runner}: `[ -e $DIR/<filelist> ]` not found with a single file name")
-    return {"runnerOutputDir": m_out[0], "runnerResultName": m_dest.pop(), "runnerFilelist": m_fl.pop()}
+    caches = re.findall(r'^\s*calib_cache="([^"]*)"\s*$', text, re.M)
+    return {"runnerOutputDir": m_out[0], "runnerResultName": names.pop(), "runnerFilelist": m_fl.pop(), "runnerCacheDirs": caches}
 
 
 def translate_backend(repo: Path, key: str, rel: str, unrec: List[str]) -> Dict[str, Any]:
     row: Dict[str, Any] = {
         "key": key, "module": rel[:-3].replace("/", "."), "datasetClass": UNREC, "defaultImage": UNREC, "defaultTag": UNREC,
         "cacheVolumes": [], "executorClass": UNREC, "runner": UNREC, "fileNames": [], "templateDir": UNREC,
-        "runnerResultName": UNREC, "runnerOutputDir": UNREC, "runnerFilelist": UNREC,
+        "runnerResultName": UNREC, "runnerOutputDir": UNREC, "runnerFilelist": UNREC, "runnerCacheDirs": [],
     }
 
     def attempt(what: str, fn):
@@ -352,6 +360,8 @@ def render_table(t: Dict[str, Any]) -> str:
         "  runnerOutputDir : String",
         "  /-- runner.sh: the file list it looks for next to itself -/",
         "  runnerFilelist : String",
+        "  /-- runner.sh: cache directories it uses when they are mounted (`calib_cache=`) -/",
+        "  runnerCacheDirs : List String",
         "deriving Repr, DecidableEq, Inhabited",
         "",
         "def backends : List BackendRow := [",
@@ -367,7 +377,8 @@ def render_table(t: Dict[str, Any]) -> str:
             + f"    executorClass := {ls(r['executorClass'])}, runner := {ls(r['runner'])},\n"
             + f"    fileNames := {vlib.lean_list(ls(x) for x in r['fileNames'])},\n"
             + f"    templateDir := {ls(r['templateDir'])},\n"
-            + f"    runnerResultName := {ls(r['runnerResultName'])}, runnerOutputDir := {ls(r['runnerOutputDir'])}, runnerFilelist := {ls(r['runnerFilelist'])}"
+            + f"    runnerResultName := {ls(r['runnerResultName'])}, runnerOutputDir := {ls(r['runnerOutputDir'])}, runnerFilelist := {ls(r['runnerFilelist'])},\n"
+            + f"    runnerCacheDirs := {vlib.lean_list(ls(x) for x in r['runnerCacheDirs'])}"
             + " }"
         )
     out.append(",\n".join(rows))
@@ -493,11 +504,11 @@ def gen_files(rng, kind: str) -> Tuple[List[str], str]:
         return list(files), cwd
     else:
         raise ValueError(kind)
-    files = [respell(rng, f) if (f.startswith("{B}") and rng.random() < 0.2) else f for f in files]
+    files = [respell(rng, f) if (f.startswith("{B}") and rng.random() < 0.12) else f for f in files]
     return files, cwd
 
 
-FILE_KINDS = ["same"] * 74 + ["different"] * 7 + ["dotdot"] * 3 + ["missing"] * 5 + ["empty"] * 2 + ["dir_as_file"] * 3 + ["relative"] * 6
+FILE_KINDS = ["same"] * 80 + ["different"] * 5 + ["dotdot"] * 2 + ["missing"] * 4 + ["empty"] * 1 + ["dir_as_file"] * 3 + ["relative"] * 5
 
 
 def gen_mds(rng) -> Tuple[List[Dict[str, Any]], List[Dict[str, Any]]]:
@@ -510,7 +521,7 @@ def gen_mds(rng) -> Tuple[List[Dict[str, Any]], List[Dict[str, Any]]]:
             mds.append({"metadata_type": "docker"})
     for _ in range(rng.choice([0, 0, 0, 1, 2])):
         mds.insert(rng.randrange(len(mds) + 1), dict(OTHER_MD))
-    if rng.random() < 0.03:
+    if rng.random() < 0.02:
         mds.insert(rng.randrange(len(mds) + 1), dict(BAD_MD))
     k = rng.randrange(len(mds) + 1)
     return mds[:k], mds[k:]
@@ -520,9 +531,9 @@ def gen_outcome(rng) -> Dict[str, Any]:
     n = rng.choice([0, 1, 1, 2, 2, 3, 4])
     chunks = [[rng.choice(["stdout", "stdout", "stderr"]), latin(rng.choice(TEXTS))] for _ in range(n)]
     r = rng.random()
-    ending = "success" if r < 0.84 else ("docker_error" if r < 0.95 else "other_error")
+    ending = "success" if r < 0.88 else ("docker_error" if r < 0.96 else "other_error")
     at_call = ending != "success" and rng.random() < 0.3
-    write_result = rng.random() < (0.94 if ending == "success" else 0.5)
+    write_result = rng.random() < (0.96 if ending == "success" else 0.5)
     return {"chunks": chunks, "ending": ending, "at_call": at_call, "write_result": write_result}
 
 
@@ -535,7 +546,7 @@ def gen_case(rng) -> Dict[str, Any]:
     r = rng.random()
     image, tag = (None, None) if r < 0.5 else ((rng.choice(IMAGES), rng.choice(TAGS)) if r < 0.85 else ((rng.choice(IMAGES), None) if r < 0.93 else (None, rng.choice(TAGS))))
     r = rng.random()
-    outdir = None if r < 0.3 else ("{B}/out" if r < 0.85 else ("{B}/out/" if r < 0.9 else ("{B}//out/." if r < 0.95 else "{B}/nope")))
+    outdir = None if r < 0.3 else ("{B}/out" if r < 0.85 else ("{B}/out/" if r < 0.9 else ("{B}//out/." if r < 0.97 else "{B}/nope")))
     before, after = gen_mds(rng)
     return {
         "backend": rng.choice(BACKENDS), "files": files, "form": rng.choice(forms), "cwd": cwd, "image": image, "tag": tag,
@@ -566,6 +577,9 @@ def grid_cases(tier: str) -> List[Dict[str, Any]]:
         {"chunks": ch, "ending": "docker_error", "at_call": False, "write_result": True},
         {"chunks": ch[:2], "ending": "other_error", "at_call": False, "write_result": True},
     ]
+    if tier != "thorough":
+        file_shapes = [file_shapes[1], file_shapes[3], file_shapes[4]]
+        outcomes = [outcomes[0], outcomes[2], outcomes[3], outcomes[6], outcomes[8]]
     cases = []
     i = 0
     for fsh in file_shapes:
@@ -810,20 +824,26 @@ def run(ctx):
     # 2. corpus, grid, generated cases
     cases: List[Tuple[str, Dict[str, Any]]] = [("corpus", c["case"]) for c in vlib.corpus_cases(ID)]
     cases += [("grid", c) for c in grid_cases(ctx.tier)]
-    nrand = 700 if ctx.tier == "quick" else 9000
+    nrand = 3000 if ctx.tier == "quick" else 30000
     cases += [("random", gen_case(ctx.rng)) for _ in range(nrand)]
     ev = evaluate(ctx, [c for _, c in cases])
     for (stream, _), e in zip(cases, ev):
         judge(ctx, stream, e)
     ctx.check_time()
+    if ctx.violations:  # minimise the failing input that goes into the replay file
+        fl = [e for e in ev if failing(e)]
+        if fl:
+            best = shrink(ctx, min(fl, key=lambda e: len(json.dumps(e["case"]))))
+            ctx.violations.insert(0, as_violation(best))
+            del ctx.violations[5:]
 
     # 3. the pure sub-models and the generated table
     check_pure_functions(ctx, ev)
     check_table(ctx)
     ctx.extra_cov["exhaustive"] = False
     ctx.extra_cov["exhaustive_part"] = (
-        "grid of 6 file-list shapes x 6 metadata shapes x 9 container outcomes"
-        + (" x 3 backends" if ctx.tier == "thorough" else " (backend rotating)")
+        ("grid of 6 file-list shapes x 6 metadata shapes x 9 container outcomes x 3 backends" if ctx.tier == "thorough"
+         else "grid of 3 file-list shapes x 6 metadata shapes x 5 container outcomes (backend rotating)")
     )
     ctx.extra_cov["defect_exclusions"] = [
         "container output that is not valid UTF-8 (known finding): exercised only by the known-findings stream"
@@ -868,31 +888,43 @@ def simpler(case: Dict[str, Any]) -> List[Dict[str, Any]]:
     return out
 
 
-def search(ctx, broken):
-    """Larger sweep with the Spec (on the implementation's observation) as the only judge; then shrink."""
-    cases = grid_cases("thorough") + [gen_case(ctx.rng) for _ in range(1500)]
-    ev = evaluate(ctx, cases)
-    failing = [e for e in ev if "bad" not in e["spec"] and not e["spec"].get("holds", False)]
-    if not failing:
-        return None
-    best = min(failing, key=lambda e: len(json.dumps(e["case"])))
-    for _ in range(12):
+def failing(e: Dict[str, Any]) -> bool:
+    return "bad" not in e["spec"] and not e["spec"].get("holds", False)
+
+
+def shrink(ctx, best: Dict[str, Any]) -> Dict[str, Any]:
+    """Greedy structural simplification while the Spec still fails on the implementation."""
+    for _ in range(15):
         cands = simpler(best["case"])
         if not cands:
             break
-        evs = evaluate(ctx, cands)
-        nxt = next((e for e in evs if "bad" not in e["spec"] and not e["spec"].get("holds", False)), None)
+        nxt = next((e for e in evaluate(ctx, cands) if failing(e)), None)
         if nxt is None:
             break
         best = nxt
-    key = case_key(best["case"])
-    kn = {e["key"] for e in ctx.known_entries("known")}
+    return best
+
+
+def as_violation(best: Dict[str, Any]) -> Dict[str, Any]:
     return {
-        "key": key, "known": key in kn,
+        "key": case_key(best["case"]),
         "what": "local docker execution violates clause(s) " + ",".join(best["spec"].get("failed", [])) + " of the C17 specification",
-        "case": best["case"], "observed": {"observation": best["impl"]["obs"], "info": best["impl"]["info"], "failed_clauses": best["spec"].get("failed")},
+        "case": best["case"],
+        "observed": {"observation": best["impl"]["obs"], "info": best["impl"]["info"], "failed_clauses": best["spec"].get("failed")},
         "replay_how": HOW,
     }
+
+
+def search(ctx, broken):
+    """Larger sweep with the Spec (on the implementation's observation) as the only judge; then shrink."""
+    cases = grid_cases("thorough") + [gen_case(ctx.rng) for _ in range(1500)]
+    fl = [e for e in evaluate(ctx, cases) if failing(e)]
+    if not fl:
+        return None
+    best = shrink(ctx, min(fl, key=lambda e: len(json.dumps(e["case"]))))
+    v = as_violation(best)
+    v["known"] = v["key"] in {e["key"] for e in ctx.known_entries("known")}
+    return v
 
 
 def replay(ctx, rep) -> int:
